@@ -2551,6 +2551,34 @@ class _Desugar(ast.NodeTransformer):
                 isinstance(tt.left, ast.Name) and tt.left.id == x and \
                 isinstance(tt.comparators[0], ast.Constant) and \
                 tt.comparators[0].value is None
+            is_none = isinstance(tt, ast.Compare) and len(tt.ops) == 1 and \
+                isinstance(tt.ops[0], ast.Is) and \
+                isinstance(tt.left, ast.Name) and tt.left.id == x and \
+                isinstance(tt.comparators[0], ast.Constant) and \
+                tt.comparators[0].value is None
+            rest = out[i + 2:]
+            if is_none and use.body and rest and \
+                    isinstance(use.body[-1], (ast.Raise, ast.Return)) and \
+                    isinstance(rest[-1], (ast.Raise, ast.Return)) and \
+                    1 <= len(rest) <= 4 and not any(
+                        isinstance(n, ast.Name) and n.id == x and
+                        isinstance(n.ctx, (ast.Store, ast.Del))
+                        for b in rest for n in ast.walk(b)) and not any(
+                        isinstance(n, ast.Name) and n.id == x
+                        for b in use.body for n in ast.walk(b)):
+                # the other way round: nothing found leaves first, what is
+                # done with what was found follows
+                import copy as _c
+                body = [_Subst({x: ast.Name(id=t, ctx=ast.Load())},
+                               {}).visit(_c.deepcopy(b)) for b in rest]
+                new_if = ast.copy_location(ast.If(
+                    test=lp.body[0].test, body=body, orelse=[]), lp.body[0])
+                new_lp = ast.copy_location(ast.For(
+                    target=lp.target, iter=lp.iter, body=[new_if], orelse=[],
+                    lineno=lp.lineno), lp)
+                out[i - 1:] = [new_lp] + list(use.body)
+                self.count += 1
+                return out
             if not is_some or not use.body or \
                     not isinstance(use.body[-1], (ast.Raise, ast.Return)):
                 continue
@@ -3518,6 +3546,18 @@ def _local_records(trees):
     return n
 
 
+def _as_dict_literal(e):
+    """{..} for a dict display or dict(a=x, b=y)."""
+    if isinstance(e, ast.Dict):
+        return e
+    if isinstance(e, ast.Call) and isinstance(e.func, ast.Name) and \
+            e.func.id == 'dict' and not e.args and e.keywords and \
+            all(k.arg is not None for k in e.keywords):
+        return ast.Dict(keys=[ast.Constant(value=k.arg) for k in e.keywords],
+                        values=[k.value for k in e.keywords])
+    return None
+
+
 def _local_dict_fields(trees):
     """q = {'key': key, 'revision': revision}     (bound once, never written)
        ... q['key'] ...                     ->   ... key ...
@@ -3537,13 +3577,16 @@ def _local_dict_fields(trees):
                 if not (len(st.targets) == 1 and
                         isinstance(st.targets[0], ast.Name) and
                         stores.get(st.targets[0].id) == 1 and
-                        isinstance(st.value, ast.Dict) and st.value.keys and
+                        isinstance(_as_dict_literal(st.value), ast.Dict)):
+                    continue
+                st_value = _as_dict_literal(st.value)
+                if not (st_value.keys and
                         all(isinstance(k, ast.Constant) and
-                            isinstance(k.value, str) for k in st.value.keys)
+                            isinstance(k.value, str) for k in st_value.keys)
                         and all(_stable_path(v) and all(
                             stores.get(x.id, 0) <= 1 for x in ast.walk(v)
                             if isinstance(x, ast.Name))
-                            for v in st.value.values)):
+                            for v in st_value.values)):
                     continue
                 var = st.targets[0].id
                 if pm is None:
@@ -3551,8 +3594,8 @@ def _local_dict_fields(trees):
                     for x in ast.walk(fn):
                         for ch in ast.iter_child_nodes(x):
                             pm[ch] = x
-                row = {k.value: v for k, v in zip(st.value.keys,
-                                                  st.value.values)}
+                row = {k.value: v for k, v in zip(st_value.keys,
+                                                  st_value.values)}
                 uses = [x for x in ast.walk(fn) if isinstance(x, ast.Name)
                         and x.id == var and isinstance(x.ctx, ast.Load)]
                 subs, ok = [], True
